@@ -107,6 +107,10 @@ class SymExec:
         except AnalysisError:
             return Opaque(e)
 
+    def join_opaque(self, k, a, b):
+        """value of `k` after a branch whose two sides left different untyped values"""
+        return Opaque(k, 'join')
+
     def same_opaque(self, a, b):
         """two opaque values that carry the same tag (kind and quantitative content): either may stand for both"""
         ta, tb = a.tag, b.tag
@@ -251,7 +255,7 @@ class SymExec:
                 elif isinstance(a, Alg) or isinstance(b, Alg):
                     merged[k] = Alg(Rat.sym('%s@%d' % (k, s.lineno)))
                 else:
-                    merged[k] = Opaque(k, 'join')
+                    merged[k] = self.join_opaque(k, a, b)
             self.env = merged
             return
         if isinstance(s, (ast.For, ast.While)):
